@@ -9,6 +9,8 @@ R6 field-wise coherence: utimens slot selection in setattr, statx -> stat64 conv
 R4 (cont.) errno is read exactly on the failure edge (`res < 0`, `res != 0` for 0-on-success calls)
 R2 (cont.) every switch site passes (ctx.uid, ctx.gid) in that order
 R7 decision table in guard normal form: where CAP_FSETID is dropped, size probe vs value of the xattr getters, access() permission paths, open options per cache policy, the xattr configuration switch
+R8 toggle use: request handlers read the negotiated mode, never the configured value (shared with C12)
+R6 (cont.) do_lookup's Entry takes each validity from its own configured timeout; futimens/utimensat run exactly when ATIME or MTIME is requested
 """
 import json
 import os
